@@ -8,6 +8,7 @@ import Naga.Driver.C06
 import Naga.Driver.C13
 import Naga.Driver.C17
 import Naga.Driver.C14
+import Naga.Driver.C09
 
 /-! Line-protocol driver: `nagadrv <cmd> [args]`, one input line ↦ one output line. -/
 
@@ -33,5 +34,6 @@ def main (args : List String) : IO UInt32 := do
   | ["c13"] => loop stdin stdout Naga.Driver.C13.handle; return 0
   | ["c17"] => loop stdin stdout Naga.Driver.C17.handle; return 0
   | ["c14"] => loop stdin stdout Naga.Driver.C14.handle; return 0
+  | ["c09"] => loop stdin stdout Naga.Driver.C09.handle; return 0
   | ["sem"] => loop stdin stdout Naga.Driver.Sem.handle; return 0
   | _ => IO.eprintln s!"nagadrv: unknown command {args}"; return 2
